@@ -351,8 +351,103 @@ func ByteWalk(v *vrt.Ctx) {
 	v.Assert(next == len(rows), "C02/bytes-rows-missing")
 }
 
+// EmptyRows: the walk over content that has empty rows (anywhere, also at the
+// end). Rows cannot be told apart by length any more, so the oracle is: every
+// page is the template, then a body, then the menu with 'next' on every page
+// but the last and 'previous' on every page but the first; and the bodies,
+// read in page order with their line feeds removed, are the rows' bytes in
+// order - nothing lost, repeated or cut. (Whether an empty row is shown as an
+// empty line is not asserted: they are dropped at page boundaries, F12b.)
+func EmptyRows(v *vrt.Ctx) {
+	nrows := v.Param("rows")
+	maxlen := v.Param("maxlen")
+	c := &c01.Cfg{Static: "hd", HasSink: true}
+	c.Size = v.U32("outputsize")
+	v.Assume(c.Size > 0 && c.Size <= 64)
+	anyEmpty := false
+	all := ""
+	for i := 0; i < nrows; i++ {
+		n := v.Choice("rowlen", maxlen+1)
+		b := v.Bytes("row", n)
+		for _, x := range b {
+			v.Assume(x != '\n')
+			v.Assume(x != 0)
+		}
+		anyEmpty = anyEmpty || n == 0
+		c.Rows = append(c.Rows, string(b))
+		all += string(b)
+	}
+	if !anyEmpty {
+		return // ByteWalk's case
+	}
+	c.Menu = [][2]string{{"0", "x"}}
+	c.Browse = 2
+	c.NextSel, c.NextTtl, c.PrevSel, c.PrevTtl = "1", "n", "2", "p"
+	rows := c.Rows
+	base := len(expected(c, rows, 0, -1, false, false))
+	big := false
+	for i := 1; i < len(rows); i++ {
+		big = v.Or(big, len(rows[i])+base+4 > int(c.Size))
+	}
+	v.Finding("F12-later-row-fills-page", big)
+	ctx := context.Background()
+	var pages []string
+	P := -1
+	for idx := 0; idx <= len(rows)+2; idx++ {
+		pg, ok := c.Page(v)
+		v.Assume(ok)
+		out, err := pg.Render(ctx, "node", uint16(idx))
+		if err != nil {
+			P = idx
+			break
+		}
+		pages = append(pages, out)
+	}
+	v.Assert(P >= 0, "C02/more-pages-than-rows")
+	v.Observe("pages", P)
+	if P == 0 {
+		roomy := true
+		for i := range rows {
+			roomy = v.And(roomy, len(rows[i])+base+4 <= int(c.Size))
+		}
+		v.Assert(!roomy, "C02/empty-rows-sufficient-size-renders")
+		v.Cover("C02/empty-rows-does-not-fit")
+		return
+	}
+	shown := ""
+	for j, out := range pages {
+		v.Observe("page", out)
+		v.Assert(uint64(len(out)) <= uint64(c.Size), "C02/empty-rows-page-fits")
+		menu := "0:x"
+		if j != P-1 {
+			menu += "\n1:n"
+		}
+		if j != 0 {
+			menu += "\n2:p"
+		}
+		head, tail := "hd\n", "\n"+menu
+		ok := len(out) >= len(head)+len(tail) && out[:len(head)] == head && out[len(out)-len(tail):] == tail
+		v.Assert(ok, "C02/empty-rows-page-is-template-body-menu")
+		if !ok {
+			return
+		}
+		for _, ch := range []byte(out[len(head) : len(out)-len(tail)]) {
+			if ch != '\n' {
+				shown += string([]byte{ch})
+			}
+		}
+	}
+	v.Assert(shown == all, "C02/empty-rows-content-complete-and-in-order")
+	if P == 1 {
+		v.Cover("C02/empty-rows-single-page")
+	} else {
+		v.Cover("C02/empty-rows-multi-page")
+	}
+}
+
 var Harnesses = map[string]func(*vrt.Ctx){
 	"Walk":       Walk,
 	"EngineWalk": EngineWalk,
 	"ByteWalk":   ByteWalk,
+	"EmptyRows":  EmptyRows,
 }
